@@ -3,6 +3,7 @@
 package c05
 
 import (
+	"os"
 	"bytes"
 	"context"
 	"encoding/json"
@@ -182,11 +183,14 @@ type Op struct {
 	Perm  int    `json:"perm"`
 	User  int    `json:"user"`
 	On    bool   `json:"on"`
-	Say   int    `json:"say"` // scripted client (kind 3): stated levels, auth = Say%3, enc = Say/3%3 over OPTIONAL/PREFERRED/REQUIRED; key mode = Say/9%4
+	Say   int    `json:"say"` // scripted client (kind 3): stated levels, auth = Say%3, enc = Say/3%3 over OPTIONAL/PREFERRED/REQUIRED; key mode = Say/9%5 (4 = an honest key), Say/45%2 = gives up authentication with a zero bitmask yet carries on
 }
 
 var sayLevels = []string{"OPTIONAL", "PREFERRED", "REQUIRED"}
 var badKeys = []kit.KeyMode{kit.KeyOmit, kit.KeyTruncated, kit.KeyRandom, kit.KeyGarbage}
+
+// key modes of the scripted client (Say/9%5); Say/45%2 == 1: it also gives up authentication with a zero bitmask and carries on
+var keyModes = []kit.KeyMode{kit.KeyOmit, kit.KeyTruncated, kit.KeyRandom, kit.KeyGarbage, kit.KeyHonest}
 
 type Case struct {
 	Ops []Op `json:"ops"`
@@ -418,8 +422,11 @@ func runCase(cs Case) (string, stats) {
 			c.cst = stream.NewStream(c.cc)
 			if kind == 3 {
 				plog, pst := kit.ScriptedClient(c.cc, kit.PeerOpts{AuthMethods: "CLAIMTOBE", CryptoMethods: "AES", SayAuth: sayLevels[op.Say%3], SayEnc: sayLevels[op.Say/3%3],
-					Key: badKeys[op.Say/9%4], Command: cmd, ClaimUser: osUser + "@verif.test"}, 2*time.Second)
+					Key: keyModes[op.Say/9%5], GiveUp: op.Say/45%2 == 1, Command: cmd, ClaimUser: osUser + "@verif.test"}, 2*time.Second)
 				herr = plog.Err
+				if os.Getenv("VERIF_DEBUG") != "" {
+					fmt.Printf("DEBUG scripted client: err=%v steps=%v\n", plog.Err, plog.Steps)
+				}
 				c.cst = pst
 				c.authed = plog.AuthCompleted != ""
 				if c.authed {
@@ -616,7 +623,7 @@ func genCase(t *rapid.T) Case {
 		k := rapid.SampledFrom([]string{"run", "run", "run", "follow", "follow", "resume", "resume", "raw", "policy", "policy", "authz", "authz", "authorizer", "restart", "sidonly", "inherit", "defpolicy", "register"}).Draw(t, "op")
 		c.Ops = append(c.Ops, Op{K: k, Cmd: rapid.IntRange(0, 6).Draw(t, "cmd"), Kind: rapid.IntRange(0, 3).Draw(t, "kind"), Keep: rapid.Bool().Draw(t, "keep"),
 			Auth: rapid.IntRange(0, 3).Draw(t, "auth"), Enc: rapid.IntRange(0, 3).Draw(t, "enc"), Integ: rapid.IntRange(0, 4).Draw(t, "integ") == 0,
-			Perm: rapid.IntRange(0, 7).Draw(t, "perm"), User: rapid.IntRange(0, 2).Draw(t, "user"), On: rapid.Bool().Draw(t, "on"), Say: rapid.IntRange(0, 35).Draw(t, "say")})
+			Perm: rapid.IntRange(0, 7).Draw(t, "perm"), User: rapid.IntRange(0, 2).Draw(t, "user"), On: rapid.Bool().Draw(t, "on"), Say: rapid.IntRange(0, 89).Draw(t, "say")})
 	}
 	return c
 }
@@ -655,7 +662,7 @@ func TestC05Directed(t *testing.T) {
 					// weak first command kept alive, then a follow-on whose policy is strong; then resume with the strong command; then a sid-only requester
 					says := []int{0}
 					if kind == 3 { // the scripted client also states every level pair, with each kind of unusable key
-						says = []int{0, 3, 6, 4, 8, 9 + 6, 18 + 3, 27 + 8}
+						says = []int{0, 3, 6, 4, 8, 9 + 6, 18 + 3, 27 + 8, 36 + 4, 45 + 36 + 0, 45 + 36 + 1, 45 + 36 + 4, 45 + 0 + 3, 45 + 36 + 8}
 					}
 					for _, say := range says {
 						cases = append(cases, Case{Ops: []Op{
